@@ -1,0 +1,22 @@
+//go:build !verif
+
+package corebgp
+
+import (
+	"context"
+	"net"
+)
+
+// verifFSM is embedded in fsm; it carries instrumentation state only when
+// built with the verif tag.
+type verifFSM struct{}
+
+func (verifFSM) verifInit(bool) {}
+
+func verifPoint(string, *fsm) {}
+
+func verifPeerPoint(string, *peer) {}
+
+func verifDial(context.Context, *fsm) (net.Conn, error, bool) {
+	return nil, nil, false
+}
